@@ -12,8 +12,6 @@ OPT_URI_PATH == 11
 OPT_CONTENT_FORMAT == 12
 SLASH == 47
 
-None == [some |-> FALSE]
-Some(x) == [some |-> TRUE, v |-> x]
 
 (* ---- method / status ----------------------------------------------------- *)
 GetMethod(m) == IF \E r \in MethodRows : r[1] = m.code THEN NameOf(MethodRows, m.code) ELSE "UnKnown"
